@@ -53,6 +53,13 @@ def correspondence(ctx):
                     ws = r.pick([["timeout", "5"], ["nice"], ["nohup"], ["command"], ["nice", "-n", "3"], ["command", "--"]]) + ws
                 if any(" " in w or "*" in w for w in ws):
                     continue
+                if r.chance(0.4):
+                    # the same words quoted differently: the model's second pass (quote removal) against the real one
+                    import bashgen as B
+
+                    ws = [B.requote(r, w) if r.chance(0.5) else w for w in ws]
+                    if any("\n" in w for w in ws):
+                        continue
                 yield " ".join(ws), cfg_text, r.pick([CWD, CWD + "/sub"])
 
     out.append(correspondence_cfg(m, cases()))
